@@ -259,7 +259,7 @@ func c09Units(thorough bool) []*explore.Unit {
 				if k <= po.startStep || harnessThread(name) && !strings.Contains(name, ":h:caller") {
 					continue
 				}
-				if k > po.endStep || nk >= 200 {
+				if k > po.endStep || nk >= 200 && !thorough || nk >= 400 {
 					break
 				}
 				nk++
@@ -267,7 +267,7 @@ func c09Units(thorough bool) []*explore.Unit {
 					p := base
 					p.event, p.evStep = ev, k
 					b := 1
-					if thorough {
+					if thorough && len(base.warm) > 0 && (ev == "connreset" || ev == "crash-reassign") {
 						b = 2
 					}
 					add(p, b)
@@ -346,7 +346,7 @@ func init() {
 		Race: c09Race,
 		ID:   "C09", Level: "model_checking",
 		Technique:   "stateless model checking of the real top-level client (availability channels, establishers, connection cache) over a simulated cluster: concurrent callers x faults x fault positions x all schedules up to a deviation bound; plus a separate free-running -race pass of the same bodies (sampling, reported as such)",
-		Rule:        "units = layout {two regions on one shared connection, on two servers, three regions on two servers} x 2-3 concurrent callers (distinct / same / crossing keys) x fault {connection reset, crash with reassignment, NSRE bursts on one region or the whole table, split, split with the daughter still opening, merge, server-stopped exception, move} x {cold burst, warm cache with one request held in flight and the fault fired after the k-th server-side attempt, k=0..3}; every schedule with <=2 deviations for cold bursts, <=1 for positioned faults (thorough: 2-3). Oracle: no panic in any thread (a double release is 'close of nil channel'), every request returns successfully, and once the cluster is stable no cached region is marked unavailable and no client thread is still running. Non-trivial = at least one non-default scheduling choice. Additionally every event fires at EVERY scheduling step of a cold burst of two callers (different regions / the same key) and of two callers with one region known, in all three layouts (vrt.GoInterrupt: the event's thread is created waiting for that step and is the default choice there, so its position is a parameter of the unit and costs no deviation), with <=1 (thorough 2) further deviations.",
+		Rule:        "units = layout {two regions on one shared connection, on two servers, three regions on two servers} x 2-3 concurrent callers (distinct / same / crossing keys) x fault {connection reset, crash with reassignment, NSRE bursts on one region or the whole table, split, split with the daughter still opening, merge, server-stopped exception, move} x {cold burst, warm cache with one request held in flight and the fault fired after the k-th server-side attempt, k=0..3}; every schedule with <=2 deviations for cold bursts, <=1 for positioned faults (thorough: 2-3). Oracle: no panic in any thread (a double release is 'close of nil channel'), every request returns successfully, and once the cluster is stable no cached region is marked unavailable and no client thread is still running. Non-trivial = at least one non-default scheduling choice. Additionally every event fires at EVERY scheduling step of a cold burst of two callers (different regions / the same key) and of two callers with one region known, in all three layouts (vrt.GoInterrupt: the event's thread is created waiting for that step and is the default choice there, so its position is a parameter of the unit and costs no deviation), with <=1 further deviation (thorough: 400 positions, and 2 deviations for connection reset / crash with one region known).",
 		Assumptions: []string{"tier L (simulated region clients)", "the data-race clause is covered only by the free-running -race pass (sampling)"},
 		Quick:       150 * time.Second, Thorough: 30 * time.Minute,
 		Units: c09Units,
